@@ -287,6 +287,9 @@ func (s *SMF) WriteTo(f io.Writer) (size int64, err error) {
 			if s.Logger != nil {
 				s.Logger.Printf("track %v is not closed, adding end with delta 0", i)
 			}
+			// the spare capacity of the track may be shared with another track (a track value that
+			// was added, then extended and added again): the end of track must not be written into it
+			s.Tracks[i] = s.Tracks[i][:len(s.Tracks[i]):len(s.Tracks[i])]
 			s.Tracks[i].Close(0)
 		}
 	}
